@@ -18,6 +18,7 @@ class LocalDeme(AbstractDeme):
         starting_pop = [self._sprout_seed]
         self._history.append([starting_pop])
         self._run_history: list[Individual] = []
+        self._sign = -1.0 if self._problem.maximize else 1.0
 
         self._options = {}
         if "maxiter" in config.__dict__:
@@ -25,7 +26,11 @@ class LocalDeme(AbstractDeme):
 
     def run_metaepoch(self, _) -> None:
         x0 = self._sprout_seed.genome
-        fun = self._problem.evaluate
+        # scipy minimises: flip the sign on maximisation problems.
+        sign = self._sign
+
+        def fun(x):
+            return sign * self._problem.evaluate(x)
 
         result = sopt.minimize(
             fun,
@@ -52,5 +57,5 @@ class LocalDeme(AbstractDeme):
     def _history_callback(self, intermediate_result) -> None:
         # scipy reuses the array behind intermediate_result.x between iterations, so it has to be copied.
         ind = Individual(intermediate_result.x.copy(), problem=self._problem)
-        ind.fitness = intermediate_result.fun
+        ind.fitness = self._sign * intermediate_result.fun
         self._run_history.append(ind)
